@@ -1,4 +1,5 @@
 import EupsModel.Lemmas.LockRGrant
+import EupsModel.Lemmas.LockRMeasure
 /-! C09 — what the repaired lock protocol GRANTS (property theorems; the exclusion theorems are in `Props/C09.lean`).
 
 "Any number of readers may share", "a child of the lock holder may re-enter its parent's lock", "released locks
@@ -164,6 +165,27 @@ theorem C09_refused_request_leaves_no_trace (kind : Pid → Kind) (lp : Pid → 
     simp only [List.replicate] at this ⊢
     rw [this]
     cases l <;> rfl
+
+/-- **No livelock, no unbounded retrying**: whatever the schedule — the others may remove the lock directory under
+the requester again and again — a command with `ntry = tries + 1` attempts makes at most `10·tries + 9` lock-directory
+calls between the start of its `takeLocks` and the end of its `giveLocks` (`callsOf` counts the schedule entries at
+which the process, not yet terminated, really makes a call). -/
+theorem C09_calls_bounded (kind : Pid → Kind) (lp : Pid → Option Pid) (tries : Pid → Nat) (sched : List Pid)
+    (p : Pid) : callsOf p (init kind lp tries) sched ≤ 10 * tries p + 9 := by
+  have := calls_bounded p (init kind lp tries) sched
+  simp only [init, LockR.measure] at this
+  simp only [init]
+  omega
+
+/-- A requester that has not (yet) put its lock file down — in particular an updater waiting at the gate for readers
+to finish — is invisible to the others: no lock file of its is in the directory, so it turns nobody away. -/
+theorem C09_waiting_requester_has_no_file (kind : Pid → Kind) (lp : Pid → Option Pid) (tries : Pid → Nat)
+    (sched : List Pid) (i : Pid) (hw : hasFile ((run (init kind lp tries) sched).pc i) = false) (k : Kind) :
+    (k, i) ∉ (run (init kind lp tries) sched).files := by
+  have h := inv_run _ sched (inv_init kind lp tries)
+  intro hm
+  have := (h.owner _ hm).2
+  simp [hw] at this
 
 /-- non-vacuity of the grants, on one schedule with overlapping calls before the requests in question: S₁ and S₂
 acquire interleaved and share; E₀ is refused at the gate (the directory is theirs) and sleeps; after both have
